@@ -117,7 +117,7 @@ func c11RelRefsSuite(r *Result, rng *rand.Rand, tier string) {
 	}
 	var ops [][]interface{}
 	var pend []pending
-	for _, fn := range []string{"S", "U", "C", "R", "E"} {
+	for _, fn := range []string{"S", "U", "C", "R", "E", "D"} {
 		f := c11Families[fn]
 		for _, t := range f.Tables {
 			if t.Model == nil {
@@ -186,7 +186,11 @@ func c11PRow(s *schema.Schema, addr int, elem reflect.Value) []interface{} {
 		if f.DBName == "" || f.DBName == "deleted_at" {
 			continue
 		}
-		kv, z := c11QV(reflect.Indirect(elem).FieldByName(f.Name).Interface())
+		var val interface{}
+		if fv, ok := c11FieldByBind(elem, f.BindNames); ok { // fields may sit in embedded structs (a nil embedded pointer holds nothing)
+			val = fv.Interface()
+		}
+		kv, z := c11QV(val)
 		cols = append(cols, []interface{}{f.DBName, kv, z})
 	}
 	return []interface{}{addr, cols}
@@ -313,7 +317,7 @@ func c11QCondsSuite(r *Result, rng *rand.Rand, tier string) {
 	if tier == "thorough" {
 		worlds = 3000
 	}
-	fams := []string{"R", "S", "C", "R", "U", "E"}
+	fams := []string{"R", "S", "C", "R", "U", "E", "D"}
 	shapes := []string{"one", "structs", "ptrs", "dupptrs", "dupvals"}
 	type pending struct {
 		suite string
